@@ -69,6 +69,13 @@ def output_contract(cfg: ivp.Cfg, correct=True, N=2):
             for k in range(N):
                 cl += [eq(f"mean_t{k+1}", res.u.mean_flat[k + 1], solution.solution_full.mean_flat[k]),
                        eq(f"cov_t{k+1}_is_scale^2_times_unit_cov", cov(L, _index(res.u, k + 1)), s2 * cov(L, _index(solution.solution_full, k)))]
+            # the posterior returned next to the marginals (used for off-grid marginals) is the same calibrated object
+            cl += [eq("posterior_mean_is_reported_mean", res.solution_full.mean_flat, res.u.mean_flat), eq("posterior_chol_is_reported_chol", res.solution_full.cholesky_flat, res.u.cholesky_flat)]
+        # bookkeeping reported per saved step (the repository reports these for the saved steps only, without t0)
+        cl += [eq("reported_step_counts", res.num_steps, solution.num_steps)]
+        for nm, a, b in (("auxiliary", res.auxiliary, solution.auxiliary), ("fun_evals", res.fun_evals, solution.fun_evals), ("prior", res.prior, solution.prior)):
+            for k, (x, y) in enumerate(zip(jax.tree_util.tree_leaves(a), jax.tree_util.tree_leaves(b))):
+                cl.append(eq(f"reported_{nm}_passed_through{k}", x, y))
         return cl
 
     def instances(tier):
